@@ -54,7 +54,7 @@ ASSUMPTIONS = ["CPython with the GIL: pre-emption happens between bytecode instr
                "covers every pre-emption point of the id generator with one forced pre-emption",
                "requests never reach the network: the opener of the shared implementation object is replaced"]
 TIERS = {
-    "quick": {"shards": 2, "cases": 12, "timeout": 300, "params": {"sweeps": 1}},
+    "quick": {"shards": 2, "cases": 12, "timeout": 300, "params": {"sweeps": 2}},
     "thorough": {"shards": 16, "cases": 60, "timeout": 3000, "params": {"sweeps": 3}},
 }
 FLOORS = {"quick": {"distinct_nontrivial": 20, "requests_observed": 5000, "yields_injected": 2000,
@@ -114,6 +114,9 @@ class Opener:
     def open(self, request):
         with self.lock:
             self.reqs.append((threading.get_ident(), request))
+        if request.full_url.endswith("/unreachable"):
+            # the server is not reached at all: the number is used up all the same
+            raise urllib.error.URLError("no route to host")
         if request.full_url.endswith("/fail"):
             # a failed request has consumed its number like any other
             raise urllib.error.HTTPError(request.full_url, 500, "boom", {}, ErrBody(request.method))
@@ -207,13 +210,13 @@ class CallerConn:
         self.caller = caller
 
     def get(self, path, **kw):
-        return self.caller.ping(**kw) if path != "/fail" else self.caller.http_conn.get(path, **kw)
+        return self.caller.ping(**kw) if path == "/p" else self.caller.http_conn.get(path, **kw)
 
     def post(self, path, **kw):
-        return self.caller.invoice(**kw) if path != "/fail" else self.caller.http_conn.post(path, **kw)
+        return self.caller.invoice(**kw) if path == "/p" else self.caller.http_conn.post(path, **kw)
 
     def put(self, path, **kw):
-        return self.caller.plain(**kw) if path != "/fail" else self.caller.http_conn.put(path, **kw)
+        return self.caller.plain(**kw) if path == "/p" else self.caller.http_conn.put(path, **kw)
 
     delete = get
     patch = post
@@ -358,8 +361,8 @@ def stress_round(ctx, seed, interleavings, case_no):
                     verb("/p", headers=reused, **kw)
                 elif k % 10 == 9 and 'params' not in kw:
                     try:
-                        verb("/fail", **kw)
-                    except urllib.error.HTTPError:
+                        verb("/fail" if k % 20 == 9 else "/unreachable", **kw)
+                    except urllib.error.URLError:     # (HTTPError is one)
                         pass
                 else:
                     verb("/p", **kw)
@@ -439,7 +442,7 @@ def offset_scenario(ctx, off, variant):
     op, conns = mk_conns()
     gen_code, _ = codes()
     conn_a = conns[0]
-    conn_b = conns[0] if variant == "same-connection" else conns[2] if variant == "derived" else conns[3]
+    conn_b = conns[0] if variant in ("same-connection", "raw-threads") else conns[2] if variant == "derived" else conns[3]
     mon = sys.monitoring
     b_done = threading.Event()
     go_b = threading.Event()
@@ -478,7 +481,31 @@ def offset_scenario(ctx, off, variant):
             errors.append(repr(err))
             b_done.set()
 
-    ta, tb = threading.Thread(target=thread_a), threading.Thread(target=thread_b)
+    raw = variant.startswith("raw-threads")
+    if raw:
+        # threads the threading module does not know about (as started by an embedding application)
+        import _thread
+
+        class RawThread:
+            def __init__(self, fn):
+                self.fn, self.done = fn, threading.Event()
+
+            def start(self):
+                def run():
+                    try:
+                        self.fn()
+                    finally:
+                        self.done.set()
+                _thread.start_new_thread(run, ())
+
+            def join(self, timeout):
+                self.done.wait(timeout)
+
+            def is_alive(self):
+                return not self.done.is_set()
+        ta, tb = RawThread(thread_a), RawThread(thread_b)
+    else:
+        ta, tb = threading.Thread(target=thread_a), threading.Thread(target=thread_b)
     try:
         tb.start()
         ta.start()
@@ -516,9 +543,9 @@ def run_shard(ctx):
         long_run(ctx, 10400 if ctx.tier == "quick" else 101000)
     ctx.evaluated()
     first_requests_race(ctx, hash((ctx.seed, ctx.shard, 77)) & 0xffffffff, 1500 if ctx.tier == "quick" else 12000)
-    variants = ["same-connection", "derived", "derived-of-derived"]
+    variants = ["same-connection", "derived", "derived-of-derived", "raw-threads"]
     for sweep in range(int(ctx.params.get("sweeps", 1))):
-        variant = variants[(ctx.shard + sweep) % len(variants)]
+        variant = variants[(ctx.shard * 2 + ctx.seed + sweep) % len(variants)]
         for off in offsets:
             ctx.evaluated()
             offset_scenario(ctx, off, variant)
